@@ -190,3 +190,12 @@ Theorem C14_regenerated_slice_window_exact : forall (A : Type) (time : A -> Z) l
   snd (cut l (gen_decorated_list_slice (map time l) st en ff)) = ffpre time ff st l ++ filter (wok time st en) l.
 Proof. exact @regenerated_slice_window_exact. Qed.
 Print Assumptions C14_regenerated_slice_window_exact.
+
+(* ---- T17: the sources this property rests on keep no state outside the objects the model has (no static locals
+   or mutable globals in C, no class-level / module-level containers, `global` rebinding or cache decorators in
+   Python): the list of such sites, regenerated from the sources on every run, is empty *)
+From Coq Require Import String List.
+From DRF Require Import Gen.StateSites Proofs.StateSitesProofs.
+Theorem C14_no_state_outside_the_modelled_objects : state_sites_listing = @nil string.
+Proof. repeat split; first [exact no_state_outside_objects_listing]. Qed.
+Print Assumptions C14_no_state_outside_the_modelled_objects.
